@@ -6,3 +6,4 @@ import JaxVerif.Properties.C06
 #print axioms JV.C06_schedule_independent
 #print axioms JV.C06_sensitive
 #print axioms JV.C06_no_other_shared_state
+#print axioms JV.C06_source_storage
